@@ -46,6 +46,7 @@ from mashumaro.core.meta.helpers import (
     is_dataclass_dict_mixin_subclass,
     is_dialect_subclass,
     is_hashable,
+    is_importable_type,
     is_init_var,
     is_literal,
     is_local_type_name,
@@ -239,9 +240,10 @@ class CodeBuilder:
     ) -> str:
         field_type = type_name(typ, resolved_type_params=resolved_type_params)
 
-        if is_local_type_name(field_type):
-            field_type = clean_id(field_type)
-            self.ensure_object_imported(typ, field_type)
+        if is_local_type_name(field_type) or not is_importable_type(typ):
+            field_type = self.ensure_object_imported(
+                typ, clean_id(field_type)
+            )
 
         return field_type
 
@@ -317,8 +319,15 @@ class CodeBuilder:
         self,
         obj: typing.Any,
         name: typing.Optional[str] = None,
-    ) -> None:
-        self.globals.setdefault(name or obj.__name__, obj)
+    ) -> str:
+        name = name or obj.__name__
+        if self.globals.setdefault(name, obj) is not obj:
+            # the name is already bound to another object (distinct local
+            # classes with the same name, or names that differ only in
+            # characters replaced by clean_id), so use a name of its own
+            name = f"{name}_{id(obj)}"
+            self.globals[name] = obj
+        return name
 
     def add_line(self, line: str) -> None:
         self.lines.append(line)
